@@ -271,3 +271,16 @@ mod tests {
         assert!(store.checkin(v6_addr, valid_token));
     }
 }
+
+/// Verification hook: read-only view of the secrets and of the last rotation time.
+#[cfg(btdht_verif)]
+impl TokenStore {
+    /// (curr_secret, last_secret, last_refresh)
+    pub fn verif_state(&self) -> (u32, u32, std::time::Instant) {
+        (
+            self.curr_secret,
+            self.last_secret,
+            self.last_refresh.verif_std(),
+        )
+    }
+}
